@@ -57,6 +57,17 @@ def run(res):
     gens = [f for f in sorted(os.listdir(os.path.join(ASSETS, "generator_examples"))) if f.endswith(".json")]
     for f in xmls:
         jobs.append(("generate --xml " + f, "xml", f))
+    # several custom target displays sharing every value but their id: whatever order the parser's
+    # HashMap yields them in, the written L10 blocks must come out in one order
+    import re
+    src = open(os.path.join(ASSETS, "tests", "cmv4_0_2_custom_displays.xml")).read()
+    m = re.search(r"<TargetDisplay>.*?</TargetDisplay>", src, flags=re.S)
+    if m:
+        for variant, ids in (("a", [250, 251, 252]), ("b", [70, 200, 130]), ("c", [90, 60])):
+            clones = "".join(re.sub(r"<ID>\d+</ID>", "<ID>%d</ID>" % i, m.group(0)) for i in ids)
+            doc = src[: m.end()] + clones + src[m.end():]
+            pth = w.write("targets_%s.xml" % variant, doc.encode())
+            jobs.append(("generate --xml (custom targets sharing values, %s)" % variant, "xmlpath", pth))
     for f in gens[: (3 if res.tier == "quick" else len(gens))]:
         jobs.append(("generate -j " + f, "genjson", f))
     for cmd in ("convert", "demux", "extract-rpu", "remove", "mux", "inject-rpu", "info", "export"):
@@ -92,6 +103,8 @@ def run(res):
                 args, files = ["editor", "-i", rpu_bin, "-j", cj, "-o", o("out.bin")], [o("out.bin")]
             elif kind == "xml":
                 args, files = ["generate", "--xml", os.path.join(ASSETS, "tests", arg), "-o", o("out.bin")], [o("out.bin")]
+            elif kind == "xmlpath":
+                args, files = ["generate", "--xml", arg, "-o", o("out.bin")], [o("out.bin")]
             elif kind == "genjson":
                 args, files = ["generate", "-j", os.path.join(ASSETS, "generator_examples", arg), "-o", o("out.bin")], [o("out.bin")]
             elif kind == "convert":
